@@ -98,6 +98,16 @@ CHECKS = {
             "ndarrays (container independence + no-harm). Traces only explained with a deviation action of an open finding are KNOWN-FINDINGs.",
             TRUST + "the output digest lists the public statistics per class; y-inputs are not in the alphabet yet.",
             "TLA+ spec with deviation actions + TLC model checking + TLC validation of product traces", "5/C14"),
+    "C19": ("MD3.tla: reference statistics over the k cross-validation folds (fold table from sklearn KFold, per-row margin / correctness bits "
+            "as a kernel table), forgetting-factor recurrence, warning rule, Idle/Waiting modes, refusal rules, exact label count, confirmation "
+            "rule, adoption of the labelled samples as new reference. TLC: all interleavings of the 7 call kinds (update in/out of margin, 2-row "
+            "update, correct / incorrect label, label with wrong columns, 2-row label) to depth 7/9 from two references, oracle length 2-3, two "
+            "sensitivities: refusals change nothing, drift only from the completing label, tracking restarts from the new density, counters count "
+            "updates only; liveness Waiting ~> Idle under weak fairness of labelling. Conformance: every interleaving of the 7 kinds to depth 3/5 "
+            "and long random scripts executed on the real MD3 (fixed and training-dependent clone-able classifiers, user margin function); every "
+            "public attribute compared after every call, refused calls included.",
+            TRUST + "fold assignment and per-row bits come from sklearn KFold and the user functions themselves.",
+            "TLA+ spec + TLC model checking (safety + liveness) + TLC trace validation", "5/C19"),
 }
 
 NA_REASON = "check not built yet (build in progress; see DESIGN.md section 5)"
